@@ -3,6 +3,7 @@ package main
 import (
 	"encoding/json"
 	"fmt"
+	"strconv"
 	"strings"
 
 	mxj "github.com/clbanning/mxj/v2"
@@ -206,7 +207,7 @@ func c12Equal(a, b interface{}, loc string, multi map[string]bool) bool {
 
 func c12Run(c *Ctx) {
 	mustBeDefault(c)
-	c.S.Rule = "cases = (Map, list of key pairs): every Map template with <= N nodes over keys {a,ab,k} (lists, empty containers, null leaves) x every single pair old:new with old over paths of <= 2 steps from {a,b,k,z,*,a[0],k[1]} and new over {x,y,x.y,x.z}, the old shorthand, and malformed pairs (a:, :a, a:b:c, a:b*, a:b[0], z:x*, z:y[0]); every list of two pairs from a reduced pair set (incl. equal and extending new paths) on Maps with <= M nodes; every list of three pairs over {a:x, ab:x, k:x, a:x.y, ab:x.y, k:x.y, *:x} on Maps with <= 4 nodes. Oracle: receiver deep-equal to its copy AND no monitored store into any container reachable from the receiver; malformed => error; exact content (reference projection built from ValuesForPath on a pristine copy) when no new path equals or extends another. Ascending and descending map order. non-trivial = non-empty result."
+	c.S.Rule = "cases = (Map, list of key pairs): every Map template with <= N nodes over keys {a,ab,k} (lists, empty containers, null leaves) x every single pair old:new with old over paths of <= 2 steps from {a,b,k,z,*,a[0],k[1]} and new over {x,y,x.y,x.z}, the old shorthand, and malformed pairs (a:, :a, a:b:c, a:b*, a:b[0], z:x*, z:y[0]); every list of two pairs from a reduced pair set (incl. equal and extending new paths) on Maps with <= M nodes; every list of three pairs over {a:x, ab:x, k:x, a:x.y, ab:x.y, k:x.y, *:x} on Maps with <= 4 nodes; a wide family (lists of 31, 32, 33, 64, 65 members under the old path). Oracle: receiver deep-equal to its copy AND no monitored store into any container reachable from the receiver; malformed => error; exact content (reference projection built from ValuesForPath on a pristine copy) when no new path equals or extends another. Ascending and descending map order. non-trivial = non-empty result."
 	c.S.Assumptions = []string{"ValuesForPath itself is validated by C07; the content oracle uses it on a pristine copy as the property states", "lists produced from wildcard old paths are compared as multisets"}
 	n, n2 := 5, 4
 	if c.Thorough {
@@ -281,6 +282,29 @@ func c12Run(c *Ctx) {
 			}
 		}
 	})
+	// wide family: old paths that end at lists around the internal initial result capacity (32) and its doubling
+	for _, width := range []int{31, 32, 33, 64, 65} {
+		for _, pairs := range [][]string{{"a:x"}, {"a:x", "k:x.y"}, {"a:x", "ab.k:x.k2"}, {"ab:x"}, {"ab:x", "k:x.y"}, {"*:x"}, {"ab.k:x", "k:x.y"}, {"a:x", "a:y"}} {
+			if !c.Mine() {
+				continue
+			}
+			c.S.States++
+			c.S.Evaluations++
+			for _, pol := range []int{rt.PolicySorted, rt.PolicyReverse} {
+				rt.OrderPolicy = pol
+				wl := make([]interface{}, width)
+				ws := make([]interface{}, width)
+				for i := range wl {
+					wl[i] = map[string]interface{}{"k": "m" + strconv.Itoa(i)}
+					ws[i] = "s" + strconv.Itoa(i)
+				}
+				c12Check(c, map[string]interface{}{"a": wl, "ab": map[string]interface{}{"k": ws}, "k": "v"}, pairs)
+				c.S.Schedules++
+				c.S.Validated++
+			}
+			rt.OrderPolicy = rt.PolicySorted
+		}
+	}
 	if c.Thorough {
 		three := []string{"a:x", "ab:x.y", "k:x.y.z", "*:x", "a[0]:y", "a.ab:x.z"}
 		g.rootMaps(4, func(t *T) {
